@@ -19,6 +19,10 @@ CK_RV sink_create(SoftHSM* h, CK_SESSION_HANDLE hs, CK_ATTRIBUTE_PTR a, CK_ULONG
 }
 bool sink_setPriv(const SoftHSM*, OSObject* o, const ByteString& ber, Token* t, bool isPrivate) { nSetPriv++; return setPrivOk; }
 }
+#ifdef BIGT
+#undef vreach
+#define vreach() do { } while (0)      /* a template that long can only be refused: the success witnesses do not apply */
+#endif
 extern "C" void harness(void)
 {
 	env_init(1, 2);
@@ -35,6 +39,13 @@ extern "C" void harness(void)
 	tmpl[1].type = CKA_KEY_TYPE; tmpl[1].pValue = &kt; tmpl[1].ulValueLen = sizeof(kt);
 	bool haveTok = nondet_bool(); tmpl[2].type = haveTok ? CKA_TOKEN : CKA_PRIVATE; tmpl[2].pValue = haveTok ? &bTok : &bPriv; tmpl[2].ulValueLen = 1;
 	CK_ULONG cnt = 2 + (nondet_uchar() & 1);
+#ifdef BIGT
+	// C17: a template longer than C_UnwrapKey's fixed attribute array: refused, nothing written out of range
+	static CK_ATTRIBUTE big[BIGT]; static CK_BYTE bigv; bigv = nondet_uchar();
+	for (int i = 0; i < BIGT; i++) { if (i < 3) big[i] = tmpl[i]; else { big[i].type = CKA_LABEL; big[i].pValue = &bigv; big[i].ulValueLen = 1; } }
+	#define tmpl big
+	cnt = BIGT;      // (count and entry types concrete: the loop shape stays concrete, pointer checks stay affordable) haveTok = haveTok;
+#endif
 	bool newTok = cnt == 3 && haveTok ? bTok != 0 : false, newPriv = cnt == 3 && !haveTok ? bPriv != 0 : true;      // PKCS#11 defaults: session object, private
 	CK_SESSION_HANDLE hS = nondet_bool() ? env.hSession : nondet_ulong(); CK_OBJECT_HANDLE hK = nondet_bool() ? env.hObj[0] : nondet_ulong();
 	CK_OBJECT_HANDLE hNew = 0x4321; size_t handles0 = env.hm->handles.size();
@@ -74,5 +85,5 @@ extern "C" void harness(void)
 		vassert(env.hm->handles.size() == handles0);
 		if (nCreate && createOk) { vassert(env_newobj.destroyed); vassert(env.hm->getObject(createdHandle) == NULL); vreach(); }
 	}
-	vreach();
+	vreach_(__LINE__);
 }
